@@ -19,20 +19,24 @@ JAX_CALLABLE = {
 
 
 def return_arity(ctx: Ctx, rule: str):
+    from . import util
+
     sm = ctx.sm
     cgc = sm.cls("codegen/base.py", "CodeGenerator")
     pyargs = {m: sm.func("codegen/python.py", f"PythonCodeGenerator.{m}") for m in ("_rhs_arguments", "_scheme_arguments")}
 
     def func_field(helper: str, field: str):
-        fc = [c for c in find_calls(pyargs[helper].node, "Func")]
-        return call_kw(fc[0], field) if fc else None
+        g = util.nff(ctx, pyargs[helper])
+        fc = [c for c in find_calls(g.node, "Func")]
+        v = call_kw(fc[0], field) if fc else None
+        return util.canon_of(g).resolve(v) if v is not None else None
 
     models = common.scheme_models(ctx)
     for mname in ("rhs", "monitor_values", "missing_values", "scheme"):
-        f = cgc.methods[mname]
-        tc = [c for c in find_calls(f.node, "template.method")]
+        f = util.nff(ctx, cgc.methods[mname])
+        tc = util.template_method_call(f)
         ctx.require(tc, f"CodeGenerator.{mname}: template.method call not found")
-        nrv = call_kw(tc[0], "num_return_values")
+        nrv = call_kw(tc, "num_return_values")
         # family of the array the method fills
         if mname == "scheme":
             fams = {slots.size_family(m.values_shape) for m in models.values()}
@@ -40,27 +44,28 @@ def return_arity(ctx: Ctx, rule: str):
         else:
             ibs = [c for c in find_calls(f.node, "IndexedBase") if c.args and const_str(c.args[0]) == "values"]
             sh = call_kw(ibs[0], "shape") if ibs else None
-            written = slots.size_family(sh) if sh is not None else None
-        # family of num_return_values
-        fam = None
-        desc = norm(nrv) if nrv is not None else None
+            shr = util.canon_of(f).resolve(sh) if sh is not None else None
+            if isinstance(shr, ast.Tuple) and len(shr.elts) == 1:
+                shr = ast.Tuple([util.strip_int(shr.elts[0])], ast.Load())
+            written = slots.size_family(shr) if shr is not None else None
+        fam, desc = None, None
         if nrv is not None:
-            node = nrv
-            if isinstance(node, ast.Call) and isinstance(node.func, ast.Name) and node.func.id == "int" and node.args:
-                node = node.args[0]
-            if norm(node) == "rhs.num_return_values":
-                helper = "_scheme_arguments" if mname == "scheme" else "_rhs_arguments"
+            node = util.strip_int(util.canon_of(f).resolve(nrv))
+            desc = norm(node)
+            if isinstance(node, ast.Attribute) and node.attr == "num_return_values" and isinstance(node.value, ast.Call) and (dotted(node.value.func) or "").split(".")[-1] in ("_rhs_arguments", "_scheme_arguments"):
+                helper = (dotted(node.value.func) or "").split(".")[-1]
                 src = func_field(helper, "num_return_values")
                 fam = slots.size_family(src) if src is not None else None
                 desc = f"Func.num_return_values = {norm(src) if src is not None else None}"
-            elif isinstance(node, ast.Name):
-                defs = [n for n in ast.walk(f.node) if isinstance(n, ast.Assign) and norm(n.targets[0]) == node.id]
-                if defs and norm(defs[0].value).endswith(".shape[0]"):
-                    base = norm(defs[0].value)[: -len(".shape[0]")]
-                    ibs2 = [n for n in ast.walk(f.node) if isinstance(n, ast.Assign) and norm(n.targets[0]) == base and isinstance(n.value, ast.Call)]
-                    sh2 = call_kw(ibs2[0].value, "shape") if ibs2 else None
+            elif isinstance(node, ast.Subscript) and norm(node.slice) == "0" and isinstance(node.value, ast.Attribute) and node.value.attr == "shape":
+                # <IndexedBase(...)>.shape[0]
+                base = node.value.value
+                if isinstance(base, ast.Call) and (dotted(base.func) or "").endswith("IndexedBase"):
+                    sh2 = call_kw(base, "shape")
+                    if isinstance(sh2, ast.Tuple) and len(sh2.elts) == 1:
+                        sh2 = ast.Tuple([util.strip_int(sh2.elts[0])], ast.Load())
                     fam = slots.size_family(sh2) if sh2 is not None else None
-                    desc = f"extent of {base} = {slots.canon_size(sh2) if sh2 is not None else None}"
+                    desc = f"extent of the filled array = {slots.canon_size(sh2) if sh2 is not None else None}"
             else:
                 fam = slots.size_family(node)
         ctx.check(
@@ -69,7 +74,7 @@ def return_arity(ctx: Ctx, rule: str):
             f.key("num_return_values"),
             f"num_return_values is the {fam} size = extent of the array the method fills",
             f"CodeGenerator.{mname} passes num_return_values={desc} ({fam or 'no known size class'}) but fills an array of the {written} size class: the JAX function returns an array of the wrong length",
-            f.where(tc[0]),
+            f.where(tc),
         )
 
 
@@ -172,9 +177,23 @@ def check_nested(ctx: Ctx, rule: str, nf):
 
 
 def run(ctx: Ctx):
+    _run(ctx)
+    ctx.rule("R03.c", "missing_values stores every requested quantity at its requested slot (the jax return array is built from the slot numbers)", floor=4)
+    from .c13 import missing_values_discipline
+
+    missing_values_discipline(ctx, "R03.c")
+    ctx.rule("R03.d", "every scheme offered for the jax backend receives the keyword arguments its builder takes (delta, stiff_states)", floor=4)
+    from . import common as _c
+
+    _c.check_scheme_kwargs(ctx, "R03.d", "delta")
+    _c.check_scheme_kwargs(ctx, "R03.d", "stiff_states")
+
+
+def _run(ctx: Ctx):
     ctx.assume("that the generated module imports / jits and its numerics are NOT decided (needs jax executed)")
     ctx.rule("R03.a", "return arity: num_return_values handed to the method template is the extent of the array the method fills; the jax template returns exactly _values_0.._values_{n-1}; JaxPrinter rewrites exactly the stores into `values`", floor=12)
     return_arity(ctx, "R03.a")
     jax_template(ctx, "R03.a")
-    ctx.rule("R03.b", "every numpy.<name> a gotranx print method can emit under the jax printer is callable that way under jax.numpy; n-ary And/Or keep every operand", floor=8)
+    ctx.rule("R03.b", "every numpy.<name> a gotranx print method can emit under the jax printer is callable that way under jax.numpy; n-ary And/Or keep every operand; no unvetted override", floor=8)
     jax_callable(ctx, "R03.b")
+    printers.check_no_unvetted_override(ctx, "R03.b", "jax")
